@@ -225,6 +225,44 @@ func c14BoundaryFiles() map[string]string {
 	}
 	w("0 TRLR")
 	files["families with 0, 1, 64 and 65 dangling references"] = b.String()
+
+	// name shapes: every name of the pool that has no ASCII letter or digit (other scripts, one
+	// non-ASCII letter, punctuation only, combining marks only, 1-3 characters, long ones), each on
+	// two people, so that diff and the merge query — which get this file on both sides — compare
+	// such names with themselves and with each other; couples and children for the surrounding
+	// similarity
+	b.Reset()
+	w("0 HEAD")
+	for i, nm := range c14NonLatin {
+		for k := 0; k < 2; k++ {
+			w("0 @N%d_%d@ INDI", i, k)
+			w("1 NAME %s", nm)
+			if i%3 == 0 {
+				w("1 NAME %s", c14NonLatin[(i+5)%len(c14NonLatin)])
+			}
+			w("1 SEX %s", []string{"M", "F"}[k])
+			w("1 BIRT")
+			w("2 DATE %d", 1800+i)
+			w("2 PLAC %s", []string{"Ελλάδα", "東京", "", ",,", "Ø"}[i%5])
+			if i%2 == 0 {
+				w("1 DEAT")
+				w("2 DATE %d", 1870+i)
+			}
+			w("1 FAMS @NF%d@", i)
+			if i > 0 {
+				w("1 FAMC @NF%d@", i-1)
+			}
+		}
+		w("0 @NF%d@ FAM", i)
+		w("1 HUSB @N%d_0@", i)
+		w("1 WIFE @N%d_1@", i)
+		if i+1 < len(c14NonLatin) {
+			w("1 CHIL @N%d_0@", i+1)
+			w("1 CHIL @N%d_1@", i+1)
+		}
+	}
+	w("0 TRLR")
+	files["name shapes without an ASCII letter or digit"] = b.String()
 	return files
 }
 
